@@ -180,7 +180,7 @@ NOT_YET = {}
 # which regenerated tables a property's theorems / deciders depend on
 TABLE_DEPS = {
     "C02": ["CtrlConsts", "EnumTables"],
-    "C04": ["NewtypeTables", "CtrlConsts"],
+    "C04": ["NewtypeTables", "CtrlConsts", "SerdeShapes"],
     "C05": ["NewtypeTables"],
     "C16": ["CtrlConsts"],
     "C18": ["NewtypeTables"],
